@@ -88,6 +88,8 @@ let layout_of (name : string) : layout =
   | "u64u8" -> { kty = fty 8 false; vty = fty 1 false }
   | "u16u32" -> { kty = fty 2 false; vty = fty 4 false }
   | "i64u16" -> { kty = fty 8 true; vty = fty 2 false }
+  | "u8u8" -> { kty = fty 1 false; vty = fty 1 false }
+  | "u16u16" -> { kty = fty 2 false; vty = fty 2 false }
   | s -> failwith ("layout " ^ s)
 
 let sort_uniq_z (l : z list) : z list =
@@ -446,6 +448,9 @@ let run_podstr (c : case) =
            v := ps_copy_from_slice nn (bytes_of_hex hx); line "U"
          | ["asstr"] ->
            (match ps_as_str !v with Some s -> line ("O" ^ hex_or_dash s) | None -> line "E")
+         | ["asstru"] ->
+           (* as_str_unchecked, called only when the text is valid (its safety contract) *)
+           (match ps_as_str !v with Some s -> line ("O" ^ hex_or_dash s) | None -> line "-")
          | ["disp"] ->
            (match ps_display !v with Some s -> line ("D" ^ hex_or_dash s) | None -> line "D~")
          | ["load"; hx] ->
@@ -465,6 +470,7 @@ let run_podstr (c : case) =
 let is_some_of (sz : int) (bs : n list) : bool =
   match sz with
   | 8 -> not (List.for_all (fun b -> int_of_n b = 255) bs)
+  | 2 -> List.exists (fun b -> int_of_n b <> 0) bs && not (List.for_all (fun b -> int_of_n b = 255) bs)
   | _ -> List.exists (fun b -> int_of_n b <> 0) bs
 
 let run_pod (c : case) =
@@ -475,6 +481,13 @@ let run_pod (c : case) =
         | ["frombool"; b] -> "#" ^ string_of_n (pod_of_bool (int_of_string b <> 0))
         | ["load"; sz; hx] ->
           (match load (nat_of_int (int_of_string sz)) (bytes_of_hex hx) with
+           | Ok x -> "O" ^ hex_of_bytes x | _ -> "P")
+        | ["loadoff"; sz; off; hx] ->
+          (* alignment is bytemuck's contract, not the model's: a misaligned start is a panic *)
+          let szi = int_of_string sz and offi = int_of_string off in
+          let al = (match szi with 4 -> 4 | 8 -> 8 | _ -> 1) in
+          if offi mod al <> 0 then "P" else
+          (match load (nat_of_int szi) (bytes_of_hex hx) with
            | Ok x -> "O" ^ hex_of_bytes x | _ -> "P")
         | ["loadmut"; sz; hx; vx] ->
           (match load_mut_store (nat_of_int (int_of_string sz)) (bytes_of_hex hx) (bytes_of_hex vx) with
